@@ -150,7 +150,7 @@ def run(spec, out):
     def q_of(t):
         return Quantity(rng.choice([1, 2.5, -3, 1000]), value(t))
 
-    ops = ["as_ratio", "format_ratio", "qformat_ratio", "str", "pretty", "html", "qhtml", "parse_str", "qparse_str", "arith", "root", "in_unit", "eq", "lt",
+    ops = ["bare_prefix", "as_ratio", "format_ratio", "qformat_ratio", "str", "pretty", "html", "qhtml", "parse_str", "qparse_str", "arith", "root", "in_unit", "eq", "lt",
            "json", "pickle", "cli", "level", "quantify", "qpretty", "add"]
     if spec.get("define_dimension"):
         ops += ["define_dimension"]
@@ -187,6 +187,14 @@ def run(spec, out):
         elif op == "arith":
             a, c = value(t), value(rand_term(2))
             rng.choice([lambda: a * c, lambda: a / c, lambda: c / a, lambda: (a * c) ** -2, lambda: (1 * a) * (2 * c), lambda: (3 * a) / (2 * c)])()
+        elif op == "bare_prefix":
+            # units whose base-unit factors have all cancelled but which still carry a prefix ((k*m)/m,
+            # Prefix*One), used as either operand of further arithmetic
+            a, c = value(t), value(rand_term(2))
+            p1 = m.Prefix._by_name[rng.choice(pools.si_prefixes)]
+            bare = rng.choice([lambda: (p1 * a) / a, lambda: p1 * One, lambda: a / (p1 * a), lambda: (p1 * a) ** 2 / a**2])()
+            rng.choice([lambda: bare * c, lambda: c * bare, lambda: bare / c, lambda: c / bare, lambda: bare**2 * c, lambda: (bare * c) ** -1,
+                        lambda: (2 * bare) * (3 * c), lambda: (bare * c).as_ratio(), lambda: str(bare * c)])()
         elif op == "root":
             u = value(t)
             k = rng.choice([2, 3, -2, -1])
